@@ -18,7 +18,7 @@ func init() {
 	run.Register(&run.Check{
 		ID:    "C15",
 		Level: "exploration",
-		Rule: "cases: histories of up to 40 InsertObject / DeleteObject / SetResources calls on one PolicyEngine (pods with controller owners - several per owner - relabelled, re-ported, added, deleted; namespaces inserted, relabelled, deleted; NetworkPolicies inserted, deleted, deleted+reinserted changed; ANPs inserted in non-priority order and deleted through the inserted or an equal fresh object; the BANP inserted, deleted, replaced; deletes of never-inserted objects of every kind), with a fixed query set (pod pairs x boundary ports x TCP/UDP) asked after every step; " +
+		Rule: "cases: histories of up to 40 InsertObject / DeleteObject / SetResources calls on one PolicyEngine (pods with controller owners - several per owner - relabelled, re-ported, added, deleted; namespaces inserted, relabelled, deleted; NetworkPolicies inserted, deleted, deleted+reinserted changed; ANPs inserted in non-priority order and deleted through the inserted or an equal fresh object; the BANP inserted, deleted, replaced; deletes of never-inserted objects of every kind; ClearResources followed by the return of the namespaces and pods with only some of the policies), with a fixed query set (pod pairs x boundary ports x TCP/UDP) asked after every step; " +
 			"oracle: the history engine's answer must equal the answer of a fresh engine built with NewPolicyEngineWithObjects from the objects current at that moment (the reference model is consulted too: where fresh engine and model disagree the query is not judged here); the engine's own cache-hit counter, read around every query, says which answers came out of the cache; " +
 			"non-trivial = at least one answer after an update came from the cache and at least one answer changed over the history; distinct = hash of the operation sequence",
 		Assumptions:       []string{"current objects = the objects of the successful calls so far (model state kept by the harness)", "a NetworkPolicy is updated by delete + insert (InsertObject rejects an existing name)"},
@@ -29,7 +29,7 @@ func init() {
 		MinEffectiveShare: 0.5,
 		RequiredEvents: map[string]int64{"steps": 5000, "queries": 200000, "cache_hits_after_update": 5000, "answers_changed_by_a_step": 1000, "deletes_of_absent_objects": 300,
 			"op_nsRelabel": 100, "op_nsDelete": 50, "op_anpInsert": 100, "op_anpDelete": 100, "op_banpInsert": 50, "op_banpDelete": 50, "op_npInsert": 100, "op_npDelete": 100,
-			"op_podRelabel": 100, "op_podDelete": 50, "op_podPorts": 50, "op_podRecreate": 50, "op_SetResources": 100},
+			"op_podRelabel": 100, "op_podDelete": 50, "op_podPorts": 50, "op_podRecreate": 50, "op_SetResources": 100, "op_clearRepopulate": 50},
 	})
 }
 
@@ -252,7 +252,7 @@ func runC15(c *run.Ctx) {
 	for step := 0; step < steps && len(r.Violations) == 0; step++ {
 		r.Ev("steps", 1)
 		op := rng.Pick(g, []string{"podRelabel", "podDelete", "podAdd", "podPorts", "podRecreate", "nsRelabel", "nsRelabel", "nsDelete", "npInsert", "npDelete", "npReplace",
-			"anpInsert", "anpInsert", "anpDelete", "banpInsert", "banpDelete", "banpReplace", "deleteAbsent", "deleteAbsent", "requery", "bulkSet"})
+			"anpInsert", "anpInsert", "anpDelete", "banpInsert", "banpDelete", "banpReplace", "deleteAbsent", "deleteAbsent", "requery", "bulkSet", "clearRepopulate"})
 		done := false
 		switch op {
 		case "podRelabel":
@@ -456,6 +456,45 @@ func runC15(c *run.Ctx) {
 			res, _ := st.eng.SetResources(objs)
 			st.call("SetResources namespace+pods+policy", res, true)
 			r.Ev("op_SetResources", 1)
+			done = true
+		case "clearRepopulate": // ClearResources, then the same namespaces and pods come back - but only some of the policies
+			st.call("ClearResources", st.eng.Clear(), true)
+			keep := []world.NetPol{}
+			dropNs := rng.Pick(g, world.NsNames) // no NetworkPolicy comes back into this namespace
+			for _, np := range st.w.NetPols {
+				if np.Ns != dropNs && g.P(0.7) {
+					keep = append(keep, np)
+				}
+			}
+			st.w.NetPols = keep
+			if g.P(0.5) {
+				st.w.ANPs = nil
+			}
+			if g.P(0.5) {
+				st.w.BANP = nil
+			}
+			st.anps = map[string]runtime.Object{}
+			docs := st.w.Docs()
+			rng.Shuffle(g, docs)
+			objs := []runtime.Object{}
+			kinds := map[runtime.Object]world.Doc{}
+			for _, d := range docs {
+				o := st.obj(d)
+				if d.Kind == "AdminNetworkPolicy" {
+					st.anps[d.Name] = o
+				}
+				objs = append(objs, o)
+				kinds[o] = d
+			}
+			if g.P(0.5) {
+				res, rest := st.eng.SetResources(objs)
+				st.call("SetResources after ClearResources", res, true)
+				objs = rest
+			}
+			for _, o := range objs {
+				d := kinds[o]
+				st.call("insert "+d.Kind+" "+d.Ns+"/"+d.Name+" (after ClearResources)", st.eng.Insert(o), true)
+			}
 			done = true
 		case "requery":
 			done = true
